@@ -73,6 +73,44 @@ def run(chk, facts_dir, tier):
     else:
         chk.fail("R20.2", WTP + "WriterThreadPool::new", "no-syncer", "no FlushPoll is ever sent: idle writer sets are never synced and their waiters never woken", nb[0])
 
+    # R20.5 the poller never forgets a live worker
+    chk.rule("R20.5", "THE POLLER KEEPS LIVE WORKERS: the closure that sends FlushPoll removes a worker from the poll list only when its channel is closed or its sender is gone "
+                      "(a full queue keeps the worker: it is merely busy)")
+    from ..util import variant_edge_dominates, discr_switches
+    pcs = [b for b in nb if b.kind == "Closure" and any((b.callee_decl(t) or "").endswith("Sender::<T>::try_send") for bi, t in b.calls())]
+    if not pcs:
+        chk.fail("R20.5", WTP + "WriterThreadPool::new", "no-poll-closure", "the syncer no longer try_sends FlushPoll to the workers", nb[0])
+    for pc in pcs:
+        pev = Ev(prog, pc)
+        bad = None
+        n_false = 0
+        for i, j, s in pc.assigns():
+            if s["lhs"]["l"] != 0 or s["lhs"]["p"]:
+                continue
+            rv = s["rv"]
+            val = strip(pev._rvalue(rv, (i, j), 0))
+            if val[0] == "const" and val[1] in ("const true", "true"):
+                continue
+            if val[0] == "const" and val[1] in ("const false", "false"):
+                n_false += 1
+                closed = variant_edge_dominates(pc, pev, i, lambda term: any(isinstance(x, tuple) and x and x[0] == "call" and x[1].endswith("try_send") for x in walk(term)),
+                                                "tokio::sync::mpsc::error::TrySendError<", "1")
+                gone = variant_edge_dominates(pc, pev, i, lambda term: any(isinstance(x, tuple) and x and x[0] == "call" and x[1].endswith("::upgrade") for x in walk(term)),
+                                              "std::option::Option<", "0")
+                if not (closed or gone):
+                    bad = (s["line"], "`false` is returned outside the Closed arm / the dropped-sender arm")
+                continue
+            bad = (s["line"], "membership is computed from %s" % show(val)[:60])
+        # a call writing the return place directly (e.g. Result::is_ok) is a computed membership too
+        for bi, t in pc.calls():
+            if t["dest"]["l"] == 0 and not t["dest"]["p"]:
+                bad = (t["line"], "membership is the result of %s" % (pc.callee_decl(t) or "").rsplit("::", 1)[-1])
+        if bad:
+            chk.fail("R20.5", WTP + "WriterThreadPool::new", "poller-drops-busy-worker", "the FlushPoll sender is dropped from the poll list although the worker is alive (%s): a worker whose queue "
+                     "was full at one tick is never polled again, and an append that does not cross a size threshold waits for its sync forever" % bad[1], pc, bad[0])
+        else:
+            chk.ok("R20.5", "poll list only loses closed / dropped workers (%d removal sites)" % n_false, pc.where())
+
     # R20.3
     hb = prog.body(WTP + "Worker::handle_append_events")
     chk.analysed(hb.path)
